@@ -12,7 +12,7 @@ use serde_json::{json, Value};
 
 use super::common::{dump_by_key, set_clock};
 use crate::{
-    explore::{bfs, Outcome},
+    explore::{bfs_nd, Outcome},
     mirror::RawSigned,
     report::Report,
     sut::Sut,
@@ -685,7 +685,7 @@ fn run(ctx: &Ctx, report: &mut Report) {
         };
         let mut evals = 0u64;
         let mut nontrivial = 0u64;
-        let stats = bfs(ctx, report, &evs, depth, 1, |h, report, ordinal| {
+        let stats = bfs_nd(ctx, report, &evs, depth, 1, 2, |h, report, ordinal| {
             evals += 1;
             let removes_nonempty = h.iter().enumerate().any(|(i, e)| match e {
                 Ev::Remove(d) => {
